@@ -2010,10 +2010,32 @@ pub async fn run(history: &History, oracle: &mut dyn Oracle, ctx: &mut Ctx) -> R
         }
         let pre = world::dump(node.state()).await;
         let view = View::read(node.state()).await;
-        let result = node
-            .end_block(height)
-            .await
-            .map_err(|e| vcommon::Failure::new("end-block-failed", format!("end_block({height}) failed: {e}")))?;
+        let result = match node.end_block(height).await {
+            Ok(result) => result,
+            Err(error) => {
+                // The fee pot cannot be credited when recipient balance + pot exceeds u128::MAX:
+                // the generated world holds more than u128::MAX of that asset in total, which no
+                // property speaks about (recorded as an observation in DESIGN.md, section 5). The
+                // history ends here; any other end_block failure is reported.
+                let recipient_overflows = pre.block_fees.iter().any(|(asset, amount)| {
+                    pre.balances
+                        .get(&(view.sudo, asset.clone()))
+                        .copied()
+                        .unwrap_or(0)
+                        .checked_add(*amount)
+                        .is_none()
+                });
+                if recipient_overflows {
+                    ctx.label("history-ends:fee-recipient-balance-would-exceed-u128");
+                    oracle.finish(ctx)?;
+                    return Ok(stats);
+                }
+                return Err(vcommon::Failure::new(
+                    "end-block-failed",
+                    format!("end_block({height}) failed: {error}"),
+                ));
+            }
+        };
         let post = world::dump(node.state()).await;
         oracle.on_end_block(
             &EndBlockObs {
